@@ -3,6 +3,7 @@ package checks
 import (
 	"os"
 	"path/filepath"
+	"reflect"
 	"sort"
 	"strconv"
 	"strings"
@@ -10,6 +11,8 @@ import (
 	"testing"
 
 	"pgregory.net/rapid"
+
+	"github.com/prometheus/alertmanager/config"
 
 	"github.com/prometheus/alertmanager/dispatch"
 
@@ -79,7 +82,12 @@ func c17GenLoad(t *rapid.T) c17LoadScenario {
 		}).YAML
 	}
 	// (rapid favours small draws; the measured split is in the evidence classes)
-	k := rapid.IntRange(0, 19).Draw(t, "family")
+	k := rapid.IntRange(0, 21).Draw(t, "family")
+	if k >= 20 {
+		sc.Kind = "global-matrix"
+		sc.Input = c17GlobalMatrix(t)
+		return sc
+	}
 	if len(corpus) == 0 && (k < 4 || (k >= 17 && k < 19)) {
 		k = 19
 	}
@@ -105,6 +113,88 @@ func c17GenLoad(t *rapid.T) c17LoadScenario {
 		sc.Input = rapid.SliceOfN(rapid.Byte(), 0, 64).Draw(t, "raw")
 	}
 	return sc
+}
+
+// c17GlobalKeys: every scalar setting of the `global:` section (yaml key and a value of the right shape), read off
+// config.GlobalConfig by reflection so that new settings are picked up.
+func c17GlobalKeys() [][2]string {
+	var out [][2]string
+	rt := reflect.TypeOf(config.GlobalConfig{})
+	for i := 0; i < rt.NumField(); i++ {
+		f := rt.Field(i)
+		key := strings.Split(f.Tag.Get("yaml"), ",")[0]
+		if key == "" || key == "-" {
+			continue
+		}
+		ft := f.Type.String()
+		switch {
+		case strings.HasSuffix(key, "_file"):
+			out = append(out, [2]string{key, "/nonexistent/" + key})
+		case strings.Contains(ft, "URL"):
+			out = append(out, [2]string{key, "http://127.0.0.1:9/path"})
+		case strings.Contains(ft, "Duration"):
+			out = append(out, [2]string{key, "1m"})
+		case strings.Contains(ft, "HostPort"):
+			out = append(out, [2]string{key, "localhost:25"})
+		case f.Type.Kind() == reflect.Bool || (f.Type.Kind() == reflect.Pointer && f.Type.Elem().Kind() == reflect.Bool):
+			out = append(out, [2]string{key, "true"})
+		case f.Type.Kind() == reflect.String || strings.Contains(ft, "Secret"):
+			out = append(out, [2]string{key, "value-of-" + key})
+		}
+	}
+	return out
+}
+
+var c17InheritingReceivers = []string{
+	"slack_configs: [{channel: c}]", "opsgenie_configs: [{}]", "victorops_configs: [{routing_key: k}]", "wechat_configs: [{}]",
+	"pagerduty_configs: [{routing_key: k}]", "telegram_configs: [{chat_id: 1}]", "email_configs: [{to: a@b}]", "webex_configs: [{room_id: r}]",
+	"rocketchat_configs: [{}]", "jira_configs: [{project: P, issue_type: Bug}]", "mattermost_configs: [{}]", "pushover_configs: [{user_key: u, token: t}]",
+	"discord_configs: [{}]", "msteams_configs: [{}]", "msteamsv2_configs: [{}]", "incidentio_configs: [{}]", "sns_configs: [{topic_arn: a}]", "webhook_configs: [{url: 'http://h/'}]",
+}
+
+// c17GlobalMatrix: a small configuration whose global section sets a random handful of settings (a value of the right
+// shape, an explicit null, or the empty string) and whose receivers use integrations that inherit from it. Aimed at the
+// "at most one of x and x_file", "no global x set" and nil-default paths of the loader, which must answer with an
+// error or a well-formed configuration, never a panic.
+func c17GlobalMatrix(t *rapid.T) []byte {
+	keys := c17GlobalKeys()
+	var sb strings.Builder
+	sb.WriteString("global:\n")
+	// pairwise: the first two settings are a uniformly drawn pair (the interesting interactions are between two
+	// settings of one family: x and x_file, a token and a URL ...), then up to three more
+	seen := map[string]bool{}
+	put := func(kv [2]string, l string) {
+		if seen[kv[0]] {
+			return
+		}
+		seen[kv[0]] = true
+		v := kv[1]
+		switch rapid.IntRange(0, 7).Draw(t, l) {
+		case 0:
+			v = "null"
+		case 1:
+			v = "''"
+		}
+		sb.WriteString("  " + kv[0] + ": " + v + "\n")
+	}
+	pair := rapid.IntRange(0, len(keys)*len(keys)-1).Draw(t, "gpair")
+	put(keys[pair/len(keys)], "gval1")
+	put(keys[pair%len(keys)], "gval2")
+	for i, n := 0, rapid.IntRange(0, 3).Draw(t, "nglobal"); i < n; i++ {
+		put(keys[rapid.IntRange(0, len(keys)-1).Draw(t, "gkey")], "gval")
+	}
+	sb.WriteString("route:\n  receiver: r\nreceivers:\n- name: r\n")
+	nr := rapid.IntRange(1, 3).Draw(t, "nrecv")
+	used := map[string]bool{}
+	for i := 0; i < nr; i++ {
+		r := rapid.SampledFrom(c17InheritingReceivers).Draw(t, "recv")
+		if used[r] {
+			continue
+		}
+		used[r] = true
+		sb.WriteString("  " + r + "\n")
+	}
+	return []byte(sb.String())
 }
 
 // c17JudgeLoad runs config.Load on the input and judges the outcome; shared by
